@@ -24,5 +24,6 @@ cd /repo && git diff --quiet || { echo "repo dirty"; exit 7; }
 git apply $D/patch.diff
 cd /verif && ./check $P > $D/check_with.log 2>&1; CK=$?
 git -C /repo checkout -- .
+./check $P > /dev/null 2>&1   # restore evidence of the clean tree
 echo "seed=$ID prop=$P demo_without_rc=$DW demo_with_rc=$DM suite_with_rc=$SU suite_passed=$PASSED check_rc=$CK"
 grep "VIOLATION\|UNDECIDED\|^OK\|failed obligation" $D/check_with.log | head -6
